@@ -115,7 +115,7 @@ pub fn run_lock(line: &str) -> String {
                 // every winner must be usable
                 let mut usable = true;
                 for (i, db) in winners.iter().enumerate() {
-                    if db.put(WriteOptions::default(), vec![i as u8], vec![1]).is_err() {
+                    if db.put(WriteOptions::default(), vec![0xfe, i as u8], vec![1]).is_err() {
                         usable = false;
                     }
                 }
